@@ -148,20 +148,46 @@ def run_guarded(cmd, cwd, env, timeout):
 
 
 def concrete_playback(scratch, env, fn):
-    """ask Kani for a concrete counterexample (printed as a unit test); best effort"""
+    """Ask Kani for a concrete counterexample, have it written into the scratch copy as a unit test and run
+    that test against the real code (`cargo kani playback`).  Best effort."""
+    res = dict(concrete=None, replayed=None)
     try:
-        p = subprocess.run(['cargo', 'kani', '-Z', 'function-contracts', '-Z', 'concrete-playback', '--concrete-playback=print', '--exact', '--harness', fn],
-                           cwd=scratch, env=env, capture_output=True, text=True, timeout=TIMEOUT_S)
-        out = p.stdout
-        m = re.search(r'```\s*\n(.*?)```', out, re.S)
-        if m:
-            return dict(concrete=m.group(1))
-        m = re.search(r'(#\[test\].*?\n\})', out, re.S)
-        if m:
-            return dict(concrete=m.group(1))
-    except Exception:
-        pass
-    return dict(concrete=None)
+        p = subprocess.run(['cargo', 'kani', '-Z', 'function-contracts', '-Z', 'concrete-playback', '--concrete-playback=inplace',
+                            '--exact', '--harness', fn], cwd=scratch, env=env, capture_output=True, text=True, timeout=TIMEOUT_S)
+        m = re.search(r'- (kani_concrete_playback_\w+)', p.stdout)
+        if not m:
+            return res
+        test = m.group(1)
+        # the generated test text
+        for root, _, files in os.walk(os.path.join(scratch, 'src')):
+            for f in files:
+                t = open(os.path.join(root, f)).read()
+                i = t.find('fn %s' % test)
+                if i >= 0:
+                    j = t.find('kani::concrete_playback_run', i)
+                    k = t.find('\n', j)
+                    res['concrete'] = t[max(0, t.rfind('#[test]', 0, i)):k + 1] + '}'
+                    vals = re.findall(r'vec!\[([0-9, ]*)\],', t[i:k])
+                    try:
+                        flat = [int(x) for v in vals for x in v.split(',') if x.strip()]
+                        res['concrete_bytes'] = flat
+                        res['concrete_ascii'] = ''.join(chr(b) if 32 <= b < 127 else '\\x%02x' % b for b in flat)
+                    except Exception:
+                        pass
+        q = subprocess.run(['cargo', 'kani', 'playback', '-Z', 'concrete-playback', '--', test], cwd=scratch, env=env,
+                           capture_output=True, text=True, timeout=TIMEOUT_S)
+        out = q.stdout + q.stderr
+        lines = out.split('\n')
+        keep = []
+        for i, l in enumerate(lines):
+            if 'panicked at' in l:
+                keep += lines[i:i + 4]
+        tr = re.search(r'test result: .*', out)
+        res['replayed'] = dict(cmd='cargo kani playback -Z concrete-playback -- %s' % test, panic='\n'.join(keep)[:1500],
+                               result=tr.group(0) if tr else '')
+    except Exception as e:
+        res['replayed'] = dict(error=str(e))
+    return res
 
 
 def write_replay(verif, prop, k):
@@ -170,6 +196,8 @@ def write_replay(verif, prop, k):
     p = os.path.join(d, '%s-%s.json' % (prop, k['name']))
     rec = dict(property=prop, obligation=k['name'], harness=k['harness'], verifier='kani', verifier_cmd=k['cmd'],
                failed_checks=k.get('failed_checks'), verifier_output=k.get('output_tail'), counterexample=k.get('concrete'),
+               counterexample_bytes=k.get('concrete_bytes'), counterexample_ascii=k.get('concrete_ascii'),
+               replayed_against_real_code=k.get('replayed'),
                note='concrete playback test below reproduces the failure against the real code (cargo kani --concrete-playback=print)'
                     if k.get('concrete') else 'no-failing-input-found')
     with open(p, 'w') as f:
